@@ -574,7 +574,7 @@ def literal_statements():
 
 
 # SELECT skeletons: a base SELECT decorated with up to 4 clause kinds
-JOIN_VARIANTS = ["JOIN u ON t.a = u.a", "INNER JOIN u ON t.a = u.a", "LEFT JOIN u ON t.a = u.a", "RIGHT JOIN u ON t.a = u.a", "FULL JOIN u ON t.a = u.a",
+JOIN_VARIANTS = ["JOIN u", "JOIN u JOIN w ON u.a = w.a", "JOIN u ON t.a = u.a", "INNER JOIN u ON t.a = u.a", "LEFT JOIN u ON t.a = u.a", "RIGHT JOIN u ON t.a = u.a", "FULL JOIN u ON t.a = u.a",
                  "FULL OUTER JOIN u USING (a)", "CROSS JOIN u", "LEFT OUTER JOIN u ON t.a = u.a AND t.b > 1", "NATURAL JOIN u", ", u"]
 SUBQ_VARIANTS = ["(SELECT a, b FROM t0 WHERE a > 0) AS t", "(SELECT * FROM t0) t", "((SELECT a, b FROM t0)) AS t"]
 CTE_VARIANTS = ["WITH c AS (SELECT a FROM v)", "WITH c AS (SELECT a FROM v), c2 AS (SELECT a FROM c)", "WITH RECURSIVE c AS (SELECT 1 AS a UNION ALL SELECT a + 1 FROM c)",
